@@ -113,6 +113,11 @@ func Cacheability(w *world.World, raws []json.RawMessage) ([]interface{}, error)
 	w.Configure([]world.DispCfg{{Name: "cc", Size: 0, HfpTTL: 300}})
 	w.Policy = func(ri *world.ReqInfo, req *http.Request) world.Outcome {
 		c := ri.Case.(*cacheCase)
+		if c.Fault == "drop" && !c.faulted {
+			// ... or closes the connection without a byte (once)
+			c.faulted = true
+			return world.Outcome{Kind: "drop"}
+		}
 		if c.Fault == "reset" && !c.faulted {
 			// the origin has the request and breaks the connection instead of answering (once)
 			c.faulted = true
